@@ -41,7 +41,8 @@ class Contract(object):
 
     def __init__(self, qual, params=None, ret=None, requires=(), ensures=(), raises=None,
                  modifies=(), loops=None, trusted=False, kind='function', note='',
-                 pure=False, defaults=None, exc_modifies=None, tags=(), must_fail=(), axioms=()):
+                 pure=False, defaults=None, exc_modifies=None, tags=(), must_fail=(), axioms=(),
+                 ghost_at=None, rely=None, detached=None, yield_guarantee=(), inline=None):
         self.qual = qual
         self.params = dict(params or {})
         self.ret = ret
@@ -58,6 +59,11 @@ class Contract(object):
         self.exc_modifies = exc_modifies     # None: same as modifies
         self.tags = tuple(tags)
         self.axioms = list(axioms)         # names of axiom groups (spec.axioms) this contract relies on
+        self.ghost_at = dict(ghost_at or {})   # callee name -> ghost assignments run after that call returns
+        self.rely = rely                   # coroutine: name of the rely relation at suspension points
+        self.detached = detached           # coroutine: contract of the synchronous prefix when not awaited
+        self.yield_guarantee = list(yield_guarantee)
+        self.inline = inline               # pure accessor: result is exactly this spec expression (must also be an ensures)
         self.must_fail = list(must_fail)   # deliberately false postconditions (vacuity guard)
 
 
